@@ -167,21 +167,10 @@ func (it *indexedMessageIterator) parseSummarySection() error {
 			}
 			// if the chunk overlaps with the requested parameters, load it
 			if (it.end == 0 && it.start == 0) || ((idx.MessageStartTime < it.end || it.endUnbounded) && idx.MessageEndTime >= it.start) {
-				// Can't infer absence of a topic if there are no message indexes.
-				if len(idx.MessageIndexOffsets) == 0 {
-					it.chunkIndexes = append(it.chunkIndexes, idx)
-					continue
-				}
-				// Otherwise, scan the message index offsets and see if we are
-				// selecting it. ChannelInfo is set only for selected topics.
-				// NB: It would be nice if we had a more compact/direct
-				// representation of what channels are in a chunk.
-				for chanID := range idx.MessageIndexOffsets {
-					if it.channels.Get(chanID) != nil {
-						it.chunkIndexes = append(it.chunkIndexes, idx)
-						break
-					}
-				}
+				// Which of these chunks hold selected channels is decided when the footer is
+				// reached: the channel records may come later in the summary than the chunk
+				// indexes.
+				it.chunkIndexes = append(it.chunkIndexes, idx)
 			}
 		case TokenStatistics:
 			stats, err := ParseStatistics(record)
@@ -190,6 +179,28 @@ func (it *indexedMessageIterator) parseSummarySection() error {
 			}
 			it.statistics = stats
 		case TokenFooter:
+			// With a topic selection, drop the chunks that hold none of the selected channels.
+			// ChannelInfo is set only for selected topics. Without a selection every chunk is
+			// kept, whether or not the summary repeats the channel records.
+			if len(it.topics) > 0 {
+				selected := it.chunkIndexes[:0]
+				for _, idx := range it.chunkIndexes {
+					// Can't infer absence of a topic if there are no message indexes.
+					if len(idx.MessageIndexOffsets) == 0 {
+						selected = append(selected, idx)
+						continue
+					}
+					// NB: It would be nice if we had a more compact/direct
+					// representation of what channels are in a chunk.
+					for chanID := range idx.MessageIndexOffsets {
+						if it.channels.Get(chanID) != nil {
+							selected = append(selected, idx)
+							break
+						}
+					}
+				}
+				it.chunkIndexes = selected
+			}
 			// sort chunk indexes in the order that they will need to be loaded, depending on the specified
 			// read order.
 			switch it.order {
